@@ -8,7 +8,7 @@
 From Coq Require Import List NArith ZArith Bool Lia Permutation.
 From PM Require Import Base.Bytes Base.Outcome Gen.GenConsts Model.ScriptAst Model.Enqueue Model.Script Model.Device Model.DevHarness
                        Model.Client Model.CliWorld Model.Daemon Spec.Proto
-                       Proofs.ClientProofs Proofs.ClientProto Proofs.ClientStream Proofs.DeviceInv Proofs.DeviceRun Proofs.DeviceInvG Proofs.DeviceRunG Proofs.DaemonLedger.
+                       Proofs.ClientProofs Proofs.ClientProto Proofs.ClientStream Proofs.ClientStreamQ Proofs.DeviceInv Proofs.DeviceRun Proofs.DeviceInvG Proofs.DeviceRunG Proofs.DaemonLedger Proofs.DaemonFrame.
 Import ListNotations.
 Local Open Scope Z_scope.
 
@@ -33,8 +33,26 @@ Proof. intros H. unfold cnt. apply (count_occ_not_In Z.eq_dec) in H. now rewrite
 (* the client-layer part of the invariant, relative to a list P of completions emitted but not yet delivered *)
 (* a client record is well formed, and its output so far holds exactly one terminal reply per line handed to
    _parse_input, except for the command still in progress *)
+(* the recogniser's "quit" state q: the client's own flag - except that a client which half-closed its connection has
+   client_quit set without a 101 line ever having been sent; from then on no request line is parsed any more *)
+Definition rq_ok (x : dcli) (q : bool) : Prop :=
+  if dc_eof x then cl_quit (dc x) = true /\ no_line x else q = cl_quit (dc x).
+(* the output so far is accepted by the protocol recogniser, which is at rest unless a command is in progress; and it
+   is exactly what was written to the descriptor followed by what is still queued *)
+Definition stream_ok (x : dcli) (toks : list tok) : Prop :=
+  (exists st q, run PStart toks = Some st /\ qcompat q (dc x) st /\ rq_ok x q) /\ cl_out (dc x) = dc_sent x ++ dc_to x.
 Definition cli_ok (x : dcli) : Prop :=
-  cmd_inv (dc x) /\ exists toks, cl_out (dc x) = render toks /\ (terminals toks + b2n (busy (dc x)) = dc_lines x)%nat.
+  cmd_inv (dc x) /\ exists toks, cl_out (dc x) = render toks /\ (terminals toks + b2n (busy (dc x)) = dc_lines x)%nat /\
+                      (dc_bad x = false -> stream_ok x toks).
+
+Lemma skipn_length_app {A} (a b : list A) : skipn (length a) (a ++ b) = b.
+Proof. induction a as [|h a IH]; cbn; auto. Qed.
+Lemma cnt_in id l : In id l -> 0 < cnt id l.
+Proof. intros H. unfold cnt. apply (count_occ_In Z.eq_dec) in H. lia. Qed.
+Lemma live_tail e r q : live (e :: r) q -> live r q.
+Proof. intros H e1 e0 e2 c E Hc. apply (H (e :: e1) e0 e2 c); [rewrite E; reflexivity|exact Hc]. Qed.
+Lemma live_head_in e r q c : live (e :: r) q -> cb_client e = Some c -> In c (completions r ++ q).
+Proof. intros H Hc. exact (H [] e r c eq_refl Hc). Qed.
 Definition CInv (P : list Z) (devs : list device) (cl : list dcli) : Prop :=
   Forall (fun x => cli_ok x /\ pend (dc x) = cnt (cid x) (P ++ qall devs)) cl.
 
@@ -55,10 +73,11 @@ Section P.
   (* _act_finish with a command in progress: the counter goes down by one, the record stays well formed *)
   Lemma act_finish_pend c store err msg : cmd_inv c -> busy c = true ->
     exists c' d, act_finish ranged_sorted c store err msg = Ok c' /\ cmd_inv c' /\ pend c' = pend c - 1 /\ cl_id c' = cl_id c /\
-      cl_out c' = cl_out c ++ render d /\ (terminals d + b2n (busy c') = b2n (busy c))%nat.
+      cl_out c' = cl_out c ++ render d /\ (terminals d + b2n (busy c') = b2n (busy c))%nat /\
+      (forall q st, qcompat q c st -> exists st', run st d = Some st' /\ qcompat q c' st') /\ cl_quit c' = cl_quit c.
   Proof.
-    intros I B. destruct (act_finish_toks expand_str ranged_sorted ranged_plain sorted c store err msg I B) as (c' & d & E & Ho & _ & Ht & I' & _).
-    exists c', d. split; [exact E|]. split; [exact I'|]. split; [|split; [exact (act_finish_id ranged_sorted _ _ _ _ _ E)|split; [exact Ho|exact Ht]]].
+    intros I B. destruct (act_finish_toks_q expand_str ranged_sorted ranged_plain sorted c store err msg I B) as (c' & d & E & Ho & Hr & Ht & I' & Hq).
+    exists c', d. split; [exact E|]. split; [exact I'|]. split; [|split; [exact (act_finish_id ranged_sorted _ _ _ _ _ E)|split; [exact Ho|split; [exact Ht|split; [exact Hr|exact Hq]]]]].
     unfold busy in B. destruct (cl_cmd c) as [k|] eqn:Ek; [|discriminate].
     destruct (act_finish_spec ranged_sorted c store err msg c' k Ek E) as [H1 H2].
     unfold pend. rewrite Ek. destruct (Z.eq_dec (k_pending k - 1) 0) as [E0|E0].
@@ -69,10 +88,16 @@ Section P.
   (* appending tokens to a record's output through set_dc *)
   Lemma cli_ok_set_dc x c' d :
     cli_ok x -> cmd_inv c' -> cl_out c' = cl_out (dc x) ++ render d -> (terminals d + b2n (busy c') = b2n (busy (dc x)))%nat ->
+    (forall q st, qcompat q (dc x) st -> exists st', run st d = Some st' /\ qcompat q c' st') -> cl_quit c' = cl_quit (dc x) ->
     cli_ok (set_dc c' x).
   Proof.
-    intros [_ (toks & Ho & Ht)] I' Ho' Ht'. split; [exact I'|]. exists (toks ++ d). cbn [set_dc dc dc_lines].
-    split; [rewrite Ho', Ho, render_app; reflexivity|]. rewrite terminals_app. lia.
+    intros [_ (toks & Ho & Ht & Hs)] I' Ho' Ht' Hr Hq. split; [exact I'|]. exists (toks ++ d). cbn [set_dc dc dc_lines dc_bad].
+    split; [rewrite Ho', Ho, render_app; reflexivity|]. split; [rewrite terminals_app; lia|].
+    intros Hb. destruct (Hs Hb) as [(st & q & R & C & Q) Hsent]. destruct (Hr q st C) as (st' & R' & C'). split.
+    - exists st', q. split; [rewrite run_app, R; exact R'|]. split; [exact C'|].
+      unfold rq_ok in *. cbn [set_dc dc dc_eof]. destruct (dc_eof x); [|rewrite Hq; exact Q].
+      destruct Q as [Q1 Q2]. split; [rewrite Hq; exact Q1|exact Q2].
+    - cbn [set_dc dc dc_sent dc_to]. rewrite Ho', skipn_length_app, Hsent, <- app_assoc. reflexivity.
   Qed.
 
   Lemma find_cli_none l id : forall n, find_cli l id n = None -> ~ In id (map cid l).
@@ -124,12 +149,11 @@ Section P.
   Qed.
 
   Lemma cli_ok_info x (f : client -> client) code m :
-    (forall c, f c = emit (render [TLine code m]) c) -> is_terminal code = false -> cli_ok x -> cli_ok (set_dc (f (dc x)) x).
+    (forall c, f c = emit (render [TLine code m]) c) -> info_code code = true -> busy (dc x) = true -> cli_ok x -> cli_ok (set_dc (f (dc x)) x).
   Proof.
-    intros Hf Hc Hx. destruct Hx as [Hi (toks & Ho & Ht)]. split.
-    - rewrite Hf. exact Hi.
-    - exists (toks ++ [TLine code m]). cbn [set_dc dc dc_lines]. rewrite Hf. cbn [emit cl_out]. split; [rewrite Ho, render_app; reflexivity|].
-      rewrite terminals_app. unfold terminals at 2. cbn [filter is_term_tok]. rewrite Hc. cbn [length]. unfold busy in *. cbn [emit cl_cmd]. lia.
+    intros Hf Hc Hb Hx. destruct (callback_toks_q (dc x) code m Hc Hb) as [Hr Ht].
+    rewrite Hf. apply (cli_ok_set_dc x _ [TLine code m]); auto.
+    destruct Hx as [Hi _]. exact Hi.
   Qed.
 
   Definition set_clients (st : daemon) (l : list dcli) : daemon :=
@@ -137,12 +161,12 @@ Section P.
 
   (* delivering the callbacks of one device: never aborts, keeps the devices, consumes the pending completions *)
   Lemma route_all_CInv : forall evs P st,
-    NoDup (ids st) -> CInv (completions evs ++ P) (dm_devs st) (dm_clients st) ->
+    NoDup (ids st) -> CInv (completions evs ++ P) (dm_devs st) (dm_clients st) -> live evs (P ++ qall (dm_devs st)) ->
     exists st', route_all ranged_sorted st evs = Ok st' /\ CInv P (dm_devs st') (dm_clients st') /\
                 ids st' = ids st /\ dm_devs st' = dm_devs st /\ dm_seq st' = dm_seq st /\ dm_store st' = dm_store st /\
                 dm_pipe st' = dm_pipe st /\ dm_tel st' = dm_tel st.
   Proof.
-    induction evs as [|e r IH]; intros P st Hnd H; cbn [route_all].
+    induction evs as [|e r IH]; intros P st Hnd H Hlive; cbn [route_all].
     - exists st. cbn in H. repeat split; auto.
     - assert (Hstep : exists st1, route ranged_sorted st e = Ok st1 /\ CInv (completions r ++ P) (dm_devs st1) (dm_clients st1) /\
                         ids st1 = ids st /\ dm_devs st1 = dm_devs st /\ dm_seq st1 = dm_seq st /\ dm_store st1 = dm_store st /\
@@ -154,18 +178,26 @@ Section P.
           destruct (find_cli (dm_clients st) id 0) as [[i x]|] eqn:Ef; [|exists st; repeat split; auto].
           destruct (find_cli_spec _ _ _ _ _ Ef) as (j & -> & Hn & Hc). cbn [Nat.add].
           eexists. split; [reflexivity|]. cbn [dm_clients dm_devs dm_seq dm_store dm_pipe dm_tel]. split.
-          + eapply CInv_same_cmd; [exact Hn|reflexivity|reflexivity| |exact H].
-            apply (cli_ok_info x (fun c => telemetry c msg) 305 msg); [intros c; unfold telemetry; now rewrite fmt_telemetry|reflexivity|].
-            unfold CInv in H. rewrite Forall_forall in H. apply H. eapply nth_error_In; exact Hn.
+          + assert (Hx : cli_ok x /\ pend (dc x) = cnt (cid x) ((completions r ++ P) ++ qall (dm_devs st))).
+            { unfold CInv in H. rewrite Forall_forall in H. apply H. eapply nth_error_In; exact Hn. }
+            destruct Hx as [Kx Px].
+            assert (Bx : busy (dc x) = true).
+            { apply pend_pos_cmd; [exact (proj1 Kx)|]. rewrite Px, Hc, <- app_assoc. apply cnt_in. exact (live_head_in _ _ _ id Hlive eq_refl). }
+            eapply CInv_same_cmd; [exact Hn|reflexivity|reflexivity| |exact H].
+            apply (cli_ok_info x (fun c => telemetry c msg) 305 msg); [intros c; unfold telemetry; now rewrite fmt_telemetry|reflexivity|exact Bx|exact Kx].
           + repeat split; auto. unfold ids. cbn [dm_clients]. apply (upd_nth_same cid _ j x); auto.
         - (* diagnostics *)
           cbn [completions flat_map app] in H.
           destruct (find_cli (dm_clients st) id 0) as [[i x]|] eqn:Ef; [|exists st; repeat split; auto].
           destruct (find_cli_spec _ _ _ _ _ Ef) as (j & -> & Hn & Hc). cbn [Nat.add].
           eexists. split; [reflexivity|]. cbn [dm_clients dm_devs dm_seq dm_store dm_pipe dm_tel]. split.
-          + eapply CInv_same_cmd; [exact Hn|reflexivity|reflexivity| |exact H].
-            apply (cli_ok_info x (fun c => diag c msg) 309 msg); [intros c; unfold diag; now rewrite fmt_diag|reflexivity|].
-            unfold CInv in H. rewrite Forall_forall in H. apply H. eapply nth_error_In; exact Hn.
+          + assert (Hx : cli_ok x /\ pend (dc x) = cnt (cid x) ((completions r ++ P) ++ qall (dm_devs st))).
+            { unfold CInv in H. rewrite Forall_forall in H. apply H. eapply nth_error_In; exact Hn. }
+            destruct Hx as [Kx Px].
+            assert (Bx : busy (dc x) = true).
+            { apply pend_pos_cmd; [exact (proj1 Kx)|]. rewrite Px, Hc, <- app_assoc. apply cnt_in. exact (live_head_in _ _ _ id Hlive eq_refl). }
+            eapply CInv_same_cmd; [exact Hn|reflexivity|reflexivity| |exact H].
+            apply (cli_ok_info x (fun c => diag c msg) 309 msg); [intros c; unfold diag; now rewrite fmt_diag|reflexivity|exact Bx|exact Kx].
           + repeat split; auto. unfold ids. cbn [dm_clients]. apply (upd_nth_same cid _ j x); auto.
         - (* completion *)
           cbn [completions flat_map app] in H.
@@ -175,7 +207,7 @@ Section P.
             { unfold CInv in H. rewrite Forall_forall in H. apply H. eapply nth_error_In; exact Hn. }
             destruct Hx as [Kx Px]. pose proof (proj1 Kx) as Ix. rewrite Hc in Px. cbn [app] in Px. rewrite cnt_cons_eq in Px.
             assert (Bx : busy (dc x) = true) by (apply pend_pos_cmd; [exact Ix|pose proof (cnt_nonneg id ((completions r ++ P) ++ qall (dm_devs st))); lia]).
-            destruct (act_finish_pend (dc x) (dm_store st) err msg Ix Bx) as (c' & dd & E & I' & P' & Id' & Ho' & Ht').
+            destruct (act_finish_pend (dc x) (dm_store st) err msg Ix Bx) as (c' & dd & E & I' & P' & Id' & Ho' & Ht' & Hr' & Hq').
             rewrite E. eexists. split; [reflexivity|]. cbn [dm_clients dm_devs dm_seq dm_store dm_pipe dm_tel]. split.
             * subst id. eapply (CInv_deliver _ _ _ j x (set_dc c' x)); eauto.
               eapply cli_ok_set_dc; eauto.
@@ -183,7 +215,7 @@ Section P.
           + exists st. split; [reflexivity|]. split; [|repeat split; auto].
             eapply CInv_drop_other; [|exact H]. eapply find_cli_none; exact Ef. }
       destruct Hstep as (st1 & E1 & H1 & A1 & A2 & A3 & A4 & A5 & A6). rewrite E1.
-      destruct (IH P st1) as (st' & E' & H' & B1 & B2 & B3 & B4 & B5 & B6); [rewrite A1; exact Hnd|exact H1|].
+      destruct (IH P st1) as (st' & E' & H' & B1 & B2 & B3 & B4 & B5 & B6); [rewrite A1; exact Hnd|exact H1|rewrite A2; exact (live_tail _ _ _ Hlive)|].
       exists st'. split; [exact E'|]. split; [exact H'|]. repeat split; congruence.
   Qed.
 
@@ -203,6 +235,12 @@ Section P.
     unfold qall. induction devs as [|a r IH]; intros [|i] d d' H Hi; cbn [nth_error upd_nth flat_map] in *; try discriminate.
     - inversion H; subst. apply incl_app; [apply incl_appl; exact Hi|apply incl_appr, incl_refl].
     - apply incl_app; [apply incl_appl, incl_refl|apply incl_appr; eapply IH; eauto].
+  Qed.
+  Lemma qall_upd_has : forall devs i d d', nth_error devs i = Some d -> incl (queued d') (qall (upd_nth devs i (fun _ => d'))).
+  Proof.
+    unfold qall. induction devs as [|a r IH]; intros [|i] d d' H; cbn [nth_error upd_nth flat_map] in *; try discriminate.
+    - apply incl_appl, incl_refl.
+    - apply incl_appr. eapply IH; eauto.
   Qed.
   Lemma DevsInv_upd : forall devs i d', DevsInv devs -> DInvRG compress d' -> DevsInv (upd_nth devs i (fun _ => d')).
   Proof.
@@ -253,7 +291,8 @@ Section P.
       assert (Hids1 : ids st1 = ids st) by reflexivity.
       assert (Hc1 : CInv (completions evs ++ []) (dm_devs st1) (dm_clients st1)).
       { rewrite app_nil_r. unfold st1. cbn [dm_devs dm_clients]. eapply CInv_after_pass; [exact En|exact (tg_fifo _ _ _ _ _ _ _ _ _ SP)|exact (dp_cinv _ I)]. }
-      destruct (route_all_CInv evs [] st1) as (st2 & E2 & C2 & A1 & A2 & A3 & A4 & A5 & A6); [rewrite Hids1; exact (dp_nodup _ I)|exact Hc1|].
+      destruct (route_all_CInv evs [] st1) as (st2 & E2 & C2 & A1 & A2 & A3 & A4 & A5 & A6); [rewrite Hids1; exact (dp_nodup _ I)|exact Hc1| |].
+      { cbn [app]. unfold st1. cbn [dm_devs]. eapply live_mono; [eapply qall_upd_has; exact En|exact (tg_live _ _ _ _ _ _ _ _ _ SP)]. }
       rewrite E2.
       assert (I2 : DPInv st2).
       { constructor.
@@ -353,18 +392,23 @@ Section P.
   Proof.
     induction fuel as [|f IH]; intros st i acc I; cbn [handle_input]; [exists st, acc; split; [reflexivity|split; [exact I|repeat split]]|].
     destruct (nth_error (dm_clients st) i) as [x|] eqn:En; [|exists st, acc; split; [reflexivity|split; [exact I|repeat split]]].
-    destruct (take_line [] (dc_from x)) as [[line rest]|]; [|exists st, acc; split; [reflexivity|split; [exact I|repeat split]]].
+    destruct (take_line [] (dc_from x)) as [[line rest]|] eqn:Et; [|exists st, acc; split; [reflexivity|split; [exact I|repeat split]]].
     destruct (parse (cconf_of st) (dm_store st) (dc x) line) as [[[cf' store'] c'] q] eqn:Ep.
     assert (Hx : cli_ok x /\ pend (dc x) = cnt (cid x) (qall (dm_devs st))).
     { pose proof (dp_cinv _ I) as H. unfold CInv in H. rewrite Forall_forall in H. apply (H x). eapply nth_error_In; exact En. }
-    destruct Hx as [Kx Px]. pose proof Kx as [Ix (toks & Ho & Ht)].
-    destruct (parse_input_toks expand_str ranged_sorted ranged_plain sorted _ _ _ _ _ _ _ _ Ep Ix) as (d & Ho' & _ & Ht' & I' & _).
+    destruct Hx as [Kx Px]. pose proof Kx as [Ix (toks & Ho & Ht & Hs)].
+    destruct (parse_input_toks expand_str ranged_sorted ranged_plain sorted _ _ _ _ _ _ _ _ Ep Ix) as (d & Ho' & Hr' & Ht' & I' & _).
     pose proof (parse_input_id expand_str ranged_sorted ranged_plain sorted _ _ _ _ _ _ _ _ Ep) as Hid.
     (* the record that replaces x *)
-    set (x' := set_dc c' (mkDcli (dc x) rest (dc_to x) (dc_nl x) (S (dc_lines x)))).
+    set (x' := set_dc c' (mkDcli (dc x) rest (dc_to x) (dc_nl x) (S (dc_lines x)) (dc_eof x) (dc_bad x) (dc_sent x))).
     assert (Kx' : cli_ok x').
-    { split; [exact I'|]. exists (toks ++ d). unfold x'. cbn [set_dc dc dc_lines]. split; [rewrite Ho', Ho, render_app; reflexivity|].
-      rewrite terminals_app. lia. }
+    { split; [exact I'|]. exists (toks ++ d). unfold x'. cbn [set_dc dc dc_lines dc_bad]. split; [rewrite Ho', Ho, render_app; reflexivity|].
+      split; [rewrite terminals_app; lia|].
+      intros Hb. destruct (Hs Hb) as [(st0 & q0 & R & C & Q) Hsent]. unfold rq_ok in Q.
+      destruct (dc_eof x) eqn:Ee; [destruct Q as [_ Q]; unfold no_line in Q; rewrite Et in Q; discriminate|]. subst q0.
+      destruct (Hr' st0 C) as (st1 & R1 & C1). split.
+      - exists st1, (cl_quit c'). split; [rewrite run_app, R; exact R1|]. split; [exact C1|]. unfold rq_ok. cbn [set_dc dc dc_eof]. try rewrite Ee. reflexivity.
+      - cbn [set_dc dc dc_sent dc_to]. rewrite Ho', skipn_length_app, Hsent, <- app_assoc. reflexivity. }
     assert (Hcid : cid x' = cid x) by (unfold x', cid; cbn; exact Hid).
     assert (Hdc : dc x' = c') by reflexivity.
     destruct (cl_cmd (dc x)) as [k|] eqn:Ek.
@@ -405,7 +449,7 @@ Section P.
             intros j. rewrite (Kc j). unfold cid. destruct (Z.eq_dec j (cl_id (dc x))); [|reflexivity].
             rewrite Hdc. unfold pend. rewrite Hk', Ek, Hpk. lia.
           - unfold ids. cbn [dm_clients]. rewrite (upd_nth_same cid _ i x); [|exact En|exact Hcid].
-            pose proof (dp_qseq _ I) as Hs. rewrite Forall_forall in *. intros z Hz. apply Hs.
+            pose proof (dp_qseq _ I) as Hsq. rewrite Forall_forall in *. intros z Hz. apply Hsq.
             apply in_app_or in Hz as [Hz|Hz]; [|apply in_or_app; now right].
             destruct (Jc z Hz) as [<-|Hz']; [|apply in_or_app; now left].
             apply in_or_app. right. apply (in_map cid). eapply nth_error_In; exact En. }
@@ -413,13 +457,12 @@ Section P.
   Qed.
 
   Lemma DPInv_upd_client st i x y :
-    nth_error (dm_clients st) i = Some x -> cid y = cid x -> cl_cmd (dc y) = cl_cmd (dc x) -> cl_out (dc y) = cl_out (dc x) ->
-    dc_lines y = dc_lines x -> DPInv st -> DPInv (set_clients st (upd_nth (dm_clients st) i (fun _ => y))).
+    nth_error (dm_clients st) i = Some x -> cid y = cid x -> cl_cmd (dc y) = cl_cmd (dc x) -> (cli_ok x -> cli_ok y) ->
+    DPInv st -> DPInv (set_clients st (upd_nth (dm_clients st) i (fun _ => y))).
   Proof.
-    intros En Hc Hk Ho Hl I.
+    intros En Hc Hk Hok I.
     assert (Kx : cli_ok x) by (pose proof (dp_cinv _ I) as H; unfold CInv in H; rewrite Forall_forall in H; apply (H x); eapply nth_error_In; exact En).
-    assert (Ky : cli_ok y).
-    { destruct Kx as [Ix (toks & H1 & H2)]. split; [unfold cmd_inv in *; now rewrite Hk|]. exists toks. unfold busy in *. rewrite Ho, Hk, Hl. auto. }
+    assert (Ky : cli_ok y) by exact (Hok Kx).
     constructor; cbn [set_clients dm_devs dm_clients dm_seq].
     - exact (dp_devs _ I).
     - unfold ids, set_clients. cbn [dm_clients]. rewrite (upd_nth_same cid _ i x); [exact (dp_nodup _ I)|exact En|exact Hc].
@@ -455,51 +498,87 @@ Section P.
       unfold ids, set_clients in *. cbn [dm_clients] in Hz. rewrite remove_nth_map in Hz. eapply incl_remove_nth; exact Hz.
   Qed.
 
-  Lemma cli_one_inv st i ci : DPInv st ->
-    exists st' evs dead, cli_one expand_str ranged_sorted ranged_plain sorted st i ci = Ok (st', evs, dead) /\ DPInv st' /\ same_static st st'.
+  (* what a read / a write on the descriptor does to the record keeps it well formed *)
+  Lemma cli_ok_same x y :
+    cl_cmd (dc y) = cl_cmd (dc x) -> cl_out (dc y) = cl_out (dc x) -> dc_lines y = dc_lines x ->
+    (dc_bad y = false -> dc_bad x = false /\ dc_sent y ++ dc_to y = dc_sent x ++ dc_to x /\ (forall q, rq_ok x q -> rq_ok y q)) ->
+    cli_ok x -> cli_ok y.
   Proof.
-    intros I. unfold cli_one. destruct (nth_error (dm_clients st) i) as [x|] eqn:En; [|exists st, [], false; split; [reflexivity|split; [exact I|repeat split]]].
-    destruct (ci_bad ci); [exists st, [], true; split; [reflexivity|split; [exact I|repeat split]]|].
-    set (x1 := if ci_in ci then _ else x).
-    match goal with |- context [let '(x2, w) := ?e in _] => destruct e as [x2 w] eqn:E2 end.
-    assert (H2 : cid x2 = cid x /\ cl_cmd (dc x2) = cl_cmd (dc x) /\ cl_out (dc x2) = cl_out (dc x) /\ dc_lines x2 = dc_lines x).
-    { assert (H1 : cid x1 = cid x /\ cl_cmd (dc x1) = cl_cmd (dc x) /\ cl_out (dc x1) = cl_out (dc x) /\ dc_lines x1 = dc_lines x).
-      { unfold x1. destruct (ci_in ci); [destruct (ci_read ci) as [[|b r]|]|]; cbn; auto. }
-      destruct (ci_out ci); [destruct (ci_wrote ci)|]; inversion E2; subst; cbn; exact H1. }
-    destruct H2 as (A1 & A2 & A3 & A4).
-    pose proof (DPInv_upd_client st i x x2 En A1 A2 A3 A4 I) as I1.
-    match goal with |- context [handle_input _ _ _ _ ?f ?s i ?a] => destruct (handle_input_inv f s i a I1) as (st2 & evs & E & I2 & S2) end.
-    rewrite E. eexists _, _, _. split; [reflexivity|]. split; [exact I2|]. exact S2.
+    intros Hk Ho Hl Hb [Ix (toks & H1 & H2 & H3)]. split; [unfold cmd_inv in *; now rewrite Hk|]. exists toks.
+    split; [now rewrite Ho|]. split; [unfold busy in *; now rewrite Hk, Hl|].
+    intros Hy. destruct (Hb Hy) as (Hx & Hs & Hq). destruct (H3 Hx) as [(st & q & R & [O A] & Q) Hsent]. split.
+    - exists st, q. split; [exact R|]. split; [split; [exact O|unfold busy in *; now rewrite Hk]|exact (Hq q Q)].
+    - now rewrite Ho, Hs.
   Qed.
 
-  Lemma cli_loop_inv : forall cins st i acc, DPInv st ->
-    exists st' evs, cli_loop expand_str ranged_sorted ranged_plain sorted st i cins acc = Ok (st', evs) /\ DPInv st' /\ same_static st st'.
+  Lemma cli_one_inv st i ci : DPInv st -> NL st ->
+    exists st' evs dead, cli_one expand_str ranged_sorted ranged_plain sorted st i ci = Ok (st', evs, dead) /\ DPInv st' /\ same_static st st' /\ NL st'.
   Proof.
-    induction cins as [|ci r IH]; intros st i acc I; cbn [cli_loop]; [exists st, acc; split; [reflexivity|split; [exact I|repeat split]]|].
-    destruct (cli_one_inv st i ci I) as (st1 & evs1 & dead & E1 & I1 & S1). rewrite E1.
+    intros I Hnl.
+    assert (Hnl' : forall st' evs dead, cli_one expand_str ranged_sorted ranged_plain sorted st i ci = Ok (st', evs, dead) -> NL st')
+      by (intros st' evs dead E; exact (cli_one_nl expand_str ranged_sorted ranged_plain sorted st i ci st' evs dead Hnl E)).
+    revert Hnl'. unfold cli_one. destruct (nth_error (dm_clients st) i) as [x|] eqn:En; [|intros _; exists st, [], false; split; [reflexivity|split; [exact I|repeat split; exact Hnl]]].
+    destruct (ci_bad ci); [intros _; exists st, [], true; split; [reflexivity|split; [exact I|repeat split; exact Hnl]]|].
+    assert (Hlx : no_line x) by (eapply Hnl; exact En).
+    set (x1 := if ci_in ci then _ else x).
+    match goal with |- context [let '(x2, w) := ?e in _] => destruct e as [x2 w] eqn:E2 end.
+    assert (H1 : cid x1 = cid x /\ cl_cmd (dc x1) = cl_cmd (dc x) /\ (cli_ok x -> cli_ok x1)).
+    { unfold x1. destruct (ci_in ci); [destruct (ci_read ci) as [[|b r]|]|]; (split; [reflexivity|split; [reflexivity|]]); try (intros K; exact K).
+      - apply cli_ok_same; try reflexivity. cbn [set_eof set_quit dc_bad dc dc_sent dc_to]. intros Hb. split; [exact Hb|]. split; [reflexivity|].
+        intros q Hq. unfold rq_ok in *. cbn [set_eof set_quit dc dc_eof cl_quit]. split; [reflexivity|].
+        unfold no_line. cbn [set_eof set_quit dc_from]. exact Hlx.
+      - apply cli_ok_same; try reflexivity. cbn [dc_bad dc dc_sent dc_to]. intros Hb. apply orb_false_iff in Hb as [Hb He]. split; [exact Hb|]. split; [reflexivity|].
+        intros q Hq. unfold rq_ok in *. cbn [dc dc_eof]. rewrite He in *. exact Hq.
+      - apply cli_ok_same; try reflexivity. cbn [set_eof set_quit dc_bad dc dc_sent dc_to]. intros Hb. split; [exact Hb|]. split; [reflexivity|].
+        intros q Hq. unfold rq_ok in *. cbn [set_eof set_quit dc dc_eof cl_quit]. split; [reflexivity|].
+        unfold no_line. cbn [set_eof set_quit dc_from]. exact Hlx. }
+    destruct H1 as (B1 & B2 & B3).
+    assert (H2 : cid x2 = cid x /\ cl_cmd (dc x2) = cl_cmd (dc x) /\ (cli_ok x -> cli_ok x2)).
+    { destruct (ci_out ci); [destruct (ci_wrote ci) as [n|]|]; inversion E2; subst x2 w; clear E2.
+      - split; [exact B1|]. split; [exact B2|]. intros K. apply (cli_ok_same x1); try reflexivity; [|exact (B3 K)].
+        cbn [dc_bad dc dc_sent dc_to]. intros Hb. split; [exact Hb|]. split; [rewrite <- app_assoc, firstn_skipn; reflexivity|].
+        intros q Hq. exact Hq.
+      - split; [exact B1|]. split; [exact B2|]. intros K. apply (cli_ok_same x1); try reflexivity; [|exact (B3 K)].
+        cbn [dc_bad]. discriminate.
+      - split; [exact B1|]. split; [exact B2|exact B3]. }
+    destruct H2 as (A1 & A2 & A3).
+    pose proof (DPInv_upd_client st i x x2 En A1 A2 A3 I) as I1.
+    match goal with |- context [handle_input _ _ _ _ ?f ?s i ?a] => destruct (handle_input_inv f s i a I1) as (st2 & evs & E & I2 & S2) end.
+    rewrite E. intros Hnl'. eexists _, _, _. split; [reflexivity|]. split; [exact I2|]. split; [exact S2|]. eapply Hnl'. reflexivity.
+  Qed.
+
+  Lemma cli_loop_inv : forall cins st i acc, DPInv st -> NL st ->
+    exists st' evs, cli_loop expand_str ranged_sorted ranged_plain sorted st i cins acc = Ok (st', evs) /\ DPInv st' /\ same_static st st' /\ NL st'.
+  Proof.
+    induction cins as [|ci r IH]; intros st i acc I Hnl; cbn [cli_loop]; [exists st, acc; split; [reflexivity|split; [exact I|repeat split; exact Hnl]]|].
+    destruct (cli_one_inv st i ci I Hnl) as (st1 & evs1 & dead & E1 & I1 & S1 & N1). rewrite E1.
     destruct dead.
-    - match goal with |- context [cli_loop _ _ _ _ ?s i r ?a] => destruct (IH s i a (DPInv_remove st1 i I1)) as (st' & evs & E & I' & S') end.
-      exists st', evs. split; [exact E|]. split; [exact I'|]. destruct S1 as (B1 & B2 & B3), S' as (C1 & C2 & C3). cbn [set_clients dm_pipe dm_seq dm_devs] in *. repeat split; congruence.
-    - destruct (IH st1 (S i) (acc ++ evs1) I1) as (st' & evs & E & I' & S'). exists st', evs. split; [exact E|]. split; [exact I'|].
+    - match goal with |- context [cli_loop _ _ _ _ ?s i r ?a] => destruct (IH s i a (DPInv_remove st1 i I1) (remove_nth_nl st1 i N1)) as (st' & evs & E & I' & S' & N') end.
+      exists st', evs. split; [exact E|]. split; [exact I'|]. split; [|exact N']. destruct S1 as (B1 & B2 & B3), S' as (C1 & C2 & C3). cbn [set_clients dm_pipe dm_seq dm_devs] in *. repeat split; congruence.
+    - destruct (IH st1 (S i) (acc ++ evs1) I1 N1) as (st' & evs & E & I' & S' & N'). exists st', evs. split; [exact E|]. split; [exact I'|]. split; [|exact N'].
       destruct S1 as (B1 & B2 & B3), S' as (C1 & C2 & C3). repeat split; congruence.
   Qed.
 
   (* one pass of the select loop: from a state that satisfies the cross-layer invariant, with coprocess devices only,
      the pass never aborts / exits / corrupts memory, and re-establishes the invariant *)
-  Theorem dstep_inv st r : DPInv st -> 1 <= dm_seq st < INT_MAX ->
+  Theorem dstep_inv st r : DPInv st -> NL st -> 1 <= dm_seq st < INT_MAX ->
     match dstep expand_str ranged_sorted ranged_plain sorted rmatch compress short_circuit st r with
-    | Ok (st', o) => DPInv st' /\ (forall t, do_tmo o = Some t -> 0 < t) /\ length (dm_devs st') = length (dm_devs st) /\
+    | Ok (st', o) => DPInv st' /\ NL st' /\ (forall t, do_tmo o = Some t -> 0 < t) /\ length (dm_devs st') = length (dm_devs st) /\
                      dm_seq st <= dm_seq st' <= dm_seq st + 1
     | Hang _ => True
     | _ => False
     end.
   Proof.
-    intros I Hseq. unfold dstep, cli_post_poll.
+    intros I Hnl Hseq. unfold dstep, cli_post_poll.
     set (sa := if r_accept r then _ else _).
-    assert (Ha : DPInv (fst sa) /\ length (dm_devs (fst sa)) = length (dm_devs st) /\ dm_seq st <= dm_seq (fst sa) <= dm_seq st + 1).
-    { unfold sa. destruct (r_accept r); [|cbn [fst]; split; [exact I|split; [reflexivity|lia]]].
+    assert (Ha : DPInv (fst sa) /\ NL (fst sa) /\ length (dm_devs (fst sa)) = length (dm_devs st) /\ dm_seq st <= dm_seq (fst sa) <= dm_seq st + 1).
+    { unfold sa. destruct (r_accept r); [|cbn [fst]; split; [exact I|split; [exact Hnl|split; [reflexivity|lia]]]].
       unfold next_id. fold INT_MAX. destruct (dm_seq st <? INT_MAX) eqn:E; [|apply Z.ltb_ge in E; lia]. cbn [fst].
-      split; [|split; [reflexivity|cbn [dm_seq]; lia]].
+      split; [|split; [|split; [reflexivity|cbn [dm_seq]; lia]]].
+      2:{ intros p x. cbn [dm_clients]. destruct (Nat.lt_ge_cases p (length (dm_clients st))) as [Hlt|Hge].
+          - rewrite nth_error_app1 by exact Hlt. apply Hnl.
+          - rewrite nth_error_app2 by exact Hge. destruct (p - length (dm_clients st))%nat as [|k]; cbn; [|destruct k; discriminate].
+            intros H; inversion H; subst. reflexivity. }
       pose proof (dp_qseq _ I) as Hq. rewrite Forall_forall in Hq.
       constructor; cbn [dm_devs dm_clients dm_seq].
       - exact (dp_devs _ I).
@@ -507,26 +586,28 @@ Section P.
         intros Hin. unfold cid in Hin. cbn in Hin. specialize (Hq (dm_seq st)). assert (1 <= dm_seq st < dm_seq st) by (apply Hq; apply in_or_app; now right). lia.
       - unfold CInv. apply Forall_app. split; [exact (dp_cinv _ I)|]. constructor; [|constructor]. split.
         + split; [exact Logic.I|]. exists [TLine 1 (dm_version st); TPrompt]. cbn [dc new_client cl_out dc_lines busy cl_cmd].
-          split; [rewrite fmt_version; cbn [render flat_map render1]; now rewrite !app_nil_r|reflexivity].
+          split; [rewrite fmt_version; cbn [render flat_map render1]; now rewrite !app_nil_r|]. split; [reflexivity|].
+          intros _. split; [|reflexivity]. exists (PReady false), false. split; [reflexivity|]. split; [split; [left; reflexivity|reflexivity]|reflexivity].
         + cbn [dc new_client pend cl_cmd app]. unfold cid. cbn [dc new_client cl_id]. symmetry. apply cnt_notin.
           intros Hin. assert (1 <= dm_seq st < dm_seq st) by (apply Hq; apply in_or_app; now left). lia.
       - rewrite Forall_forall. intros z Hz. unfold ids in Hz. cbn [dm_clients] in Hz. rewrite map_app in Hz. cbn [map] in Hz.
         rewrite app_assoc in Hz. apply in_app_or in Hz as [Hz|[<-|[]]].
         + specialize (Hq z Hz). lia.
         + unfold cid. cbn. lia. }
-    destruct sa as [sta e1]. cbn [fst] in Ha. destruct Ha as (Ia & La & Sa).
-    destruct (cli_loop_inv (pad_cins (length (dm_clients sta)) (r_cli r)) sta 0 e1 Ia) as (stb & e2 & El & Ib & Sb). rewrite El.
+    destruct sa as [sta e1]. cbn [fst] in Ha. destruct Ha as (Ia & Na & La & Sa).
+    destruct (cli_loop_inv (pad_cins (length (dm_clients sta)) (r_cli r)) sta 0 e1 Ia Na) as (stb & e2 & El & Ib & Sb & Nb). rewrite El.
     destruct Sb as (B1 & B2 & B3).
     pose proof (dev_loop_inv (length (dm_devs stb)) (r_now r) stb 0 (r_dev r) None [] Ib) as Hd.
     assert (Hn : tmo_pos None) by (intros x Hx; discriminate). specialize (Hd Hn).
-    destruct (dev_loop ranged_sorted rmatch compress short_circuit (length (dm_devs stb)) (r_now r) stb 0 (r_dev r) None []) as [[[stc tmo] e3]| | | |]; try contradiction; [|exact Logic.I].
-    destruct Hd as (Ic & Tc & _ & Sc & Lc & _). cbn [do_tmo]. split; [exact Ic|]. split; [exact Tc|]. split; lia.
+    destruct (dev_loop ranged_sorted rmatch compress short_circuit (length (dm_devs stb)) (r_now r) stb 0 (r_dev r) None []) as [[[stc tmo] e3]| | | |] eqn:Edl; try contradiction; [|exact Logic.I].
+    destruct Hd as (Ic & Tc & _ & Sc & Lc & _). cbn [do_tmo]. split; [exact Ic|].
+    split; [exact (dev_loop_nl ranged_sorted rmatch compress short_circuit _ _ _ _ _ _ _ _ _ _ Nb Edl)|]. split; [exact Tc|]. split; lia.
   Qed.
 
   (* ---------------------------------------------------------------- every history *)
   Definition rounds_plain (rs : list round) : Prop := Forall (fun r => pins_plain (r_dev r)) rs.
 
-  Theorem drun_inv : forall rs st acc, DPInv st ->
+  Theorem drun_inv : forall rs st acc, DPInv st -> NL st ->
     1 <= dm_seq st -> dm_seq st + Z.of_nat (length rs) <= INT_MAX ->
     match drun expand_str ranged_sorted ranged_plain sorted rmatch compress short_circuit st rs acc with
     | Ok (st', outs) => DPInv st' /\ length (dm_devs st') = length (dm_devs st) /\
@@ -535,13 +616,13 @@ Section P.
     | _ => False
     end.
   Proof.
-    induction rs as [|r rs IH]; intros st acc I H1 Hn; cbn [drun].
+    induction rs as [|r rs IH]; intros st acc I Hnl H1 Hn; cbn [drun].
     - split; [exact I|]. split; [reflexivity|]. exists []. split; [now rewrite app_nil_r|constructor].
     - cbn [length] in Hn.
-      pose proof (dstep_inv st r I ltac:(lia)) as Hs.
+      pose proof (dstep_inv st r I Hnl ltac:(lia)) as Hs.
       destruct (dstep expand_str ranged_sorted ranged_plain sorted rmatch compress short_circuit st r) as [[st1 o]| | | |]; try contradiction; [|exact Logic.I].
-      destruct Hs as (I1 & T1 & L1 & S1).
-      specialize (IH st1 (acc ++ [o]) I1 ltac:(lia) ltac:(lia)).
+      destruct Hs as (I1 & N1 & T1 & L1 & S1).
+      specialize (IH st1 (acc ++ [o]) I1 N1 ltac:(lia) ltac:(lia)).
       destruct (drun expand_str ranged_sorted ranged_plain sorted rmatch compress short_circuit st1 rs (acc ++ [o])) as [[st' outs]| | | |]; try contradiction; [|exact Logic.I].
       destruct IH as (I' & L' & new & -> & F'). split; [exact I'|]. split; [congruence|].
       exists (o :: new). split; [now rewrite <- app_assoc|]. constructor; assumption.
@@ -590,10 +671,40 @@ Section P.
       | _ => False                (* never Exit / Abort / MemErr: in particular _act_finish always finds its command *)
       end.
   Proof.
-    intros Hb Hn. destruct (dinit_inv st now plans Hb) as (st1 & o & E & I1 & S1 & P1 & _ & _).
+    intros Hb Hn. destruct (dinit_inv st now plans Hb) as (st1 & o & E & I1 & S1 & P1 & C1 & _).
     exists st1, o. split; [exact E|].
-    pose proof (drun_inv rs st1 [] I1 ltac:(lia) ltac:(rewrite S1; unfold INT_MAX in *; lia)) as H.
+    assert (N1 : NL st1) by (intros p x Hx; rewrite C1 in Hx; destruct p; discriminate Hx).
+    pose proof (drun_inv rs st1 [] I1 N1 ltac:(lia) ltac:(rewrite S1; unfold INT_MAX in *; lia)) as H.
     destruct (drun expand_str ranged_sorted ranged_plain sorted rmatch compress short_circuit st1 rs []) as [[st' outs]| | | |]; try contradiction; [|exact Logic.I].
     destruct H as (I' & _ & new & -> & F). cbn [app]. split; [exact (dp_cinv _ I')|]. split; [exact (dp_nodup _ I')|]. split; [exact (dp_devs _ I')|exact F].
+  Qed.
+
+  (* what the protocol recogniser of Spec/Proto.v says of every client stream, in every reachable state: the bytes written
+     so far followed by the bytes still queued are the rendering of a token list the recogniser accepts (001 banner and
+     prompt first, documented codes only, 3xx lines only inside a reply, a prompt only after the banner or a terminal line),
+     it is at rest unless a command is in progress, and it holds exactly one terminal line per request line handed to
+     _parse_input, the outstanding one being the command in progress.  Excluded: a client whose descriptor failed on a
+     write (its queued output was dropped) or delivered bytes after end-of-file (dc_bad). *)
+  Definition stream_conforms (x : dcli) : Prop :=
+    exists toks st, dc_sent x ++ dc_to x = render toks /\ run PStart toks = Some st /\
+      (busy (dc x) = false -> at_rest st = true) /\ (terminals toks + b2n (busy (dc x)) = dc_lines x)%nat.
+
+  Lemma cli_ok_conforms x : cli_ok x -> dc_bad x = false -> stream_conforms x.
+  Proof.
+    intros [_ (toks & Ho & Ht & Hs)] Hb. destruct (Hs Hb) as [(st & q & R & [_ A] & _) Hsent].
+    exists toks, st. split; [rewrite <- Hsent; exact Ho|]. split; [exact R|]. split; [exact A|exact Ht].
+  Qed.
+
+  Theorem daemon_streams st now plans rs : boot st -> Z.of_nat (length rs) < INT_MAX - 1 ->
+    exists st1 o, dinit st now plans = Ok (st1, o) /\
+      match drun expand_str ranged_sorted ranged_plain sorted rmatch compress short_circuit st1 rs [] with
+      | Ok (st', outs) => Forall (fun x => dc_bad x = false -> stream_conforms x) (dm_clients st')
+      | Hang _ => True
+      | _ => False
+      end.
+  Proof.
+    intros Hb Hn. destruct (daemon_invariant st now plans rs Hb Hn) as (st1 & o & E & H). exists st1, o. split; [exact E|].
+    destruct (drun expand_str ranged_sorted ranged_plain sorted rmatch compress short_circuit st1 rs []) as [[st' outs]| | | |]; try contradiction; [|exact Logic.I].
+    destruct H as (H & _). eapply Forall_impl; [|exact H]. cbn beta. intros x [K _] Hbad. exact (cli_ok_conforms x K Hbad).
   Qed.
 End P.
